@@ -179,6 +179,26 @@ def parse_check_output(text):
     return listing, count, clean
 
 
+def scan_overview(root):
+    """{language: [files, functions, lines of code, hard-to-maintain, unmaintainable]} as printed by scan_codebase."""
+    from pathlib import Path
+
+    from codelimit.common.Configuration import Configuration
+    from codelimit.common.Scanner import scan_codebase
+
+    Configuration.verbose = True
+    Configuration.exclude = []
+    buf = io.StringIO()
+    with contextlib.redirect_stdout(buf):
+        scan_codebase(Path(root))
+    rows = {}
+    for ln in buf.getvalue().splitlines():
+        parts = [x for x in re.split(r"\s{2,}", ln.strip()) if x]
+        if len(parts) == 6 and parts[0] in ("Python", "C") and all(x.replace(",", "").isdigit() for x in parts[1:]):
+            rows[parts[0]] = [int(x.replace(",", "")) for x in parts[1:]]
+    return rows
+
+
 def observe_state(arg):
     """Rebuild one Thresholds.tla state for real. arg = (funcs, e2e)."""
     global _SCRATCH
@@ -218,6 +238,8 @@ def observe_state(arg):
         o["e2e"] = {"exit": code, "qexit": qcode, "listing": {k: [x[0] for x in v] for k, v in listing.items()}, "symbols_ok": all(
             (s == ("cross" if L > 60 else "warning")) for v in listing.values() for (L, s, _) in v), "names_ok": all(n.endswith(f"_{L}") for v in listing.values() for (L, _, n) in v),
             "count": count, "clean": clean, "quiet_silent": qout.strip() == "", "quiet_same": qout == out}
+        # the overview `scan` prints while it analyses the same files (the worker process scans one codebase after the other)
+        o["e2e"]["overview"] = scan_overview(_SCRATCH)
     return o
 
 
@@ -261,6 +283,16 @@ def compare_state(funcs, exp, o):
             return "CheckSummaryCount"
         if (exp["count"] == 0) != e["clean"]:
             return "CheckSummarySentence"
+        fc = exp["fileCounts"]
+        fc = {i + 1: list(x) for i, x in enumerate(fc)} if isinstance(fc, tuple) else {k: list(v) for k, v in fc.items()}
+        for fid, (fname, lang) in FILES.items():
+            row = e["overview"].get(lang)
+            if row is None:
+                return "ScanOverviewRow"
+            if row[0] != 1 or row[1] != sum(fc[fid]):
+                return "ScanOverviewFilesAndFunctions"
+            if row[3] != fc[fid][2] or row[4] != fc[fid][3]:
+                return "ScanOverviewCounters"
         if e["quiet_silent"] != exp["silent"]:
             return "CheckQuiet"
         if not exp["silent"] and not e["quiet_same"]:
